@@ -1,6 +1,7 @@
 import KoordVerif.Common.Proto
 import KoordVerif.Model.C08
 import KoordVerif.Model.C08Glue
+import KoordVerif.Model.C08Fw
 /-
 Driver for C08.  One case = one history.  Lines (all tokens integers, d = 2: cpu, memory):
   cfg <f0> <f1> <allowCustom> <secSched> <secInit> <prodIncSys> <nNodes>          (first line)
@@ -23,6 +24,9 @@ After every state-changing op: one line `st <node> nf | st <node> p0 p1 n0 n1 e0
         the raw shape of the pod of the NEXT pod-carrying line (rsv/add/upd/filter): the glue model derives class,
         custom factors / seconds and (request, limit) from it -> `shape cls cf0 cf1 cSched cInit req0 lim0 req1 lim1`,
         and these replace the corresponding pod19 tokens of that next line.
+  fwfilter <the tokens of a filter line> : the verdict of the scheduler FRAMEWORK for that node in a cycle
+        RunPreFilterPlugins -> RunFilterPluginsWithNominatedPods on one CycleState (Model/C08Fw.lean) -> `fw <verdict>`
+        (5 = PreFilter aborted the cycle)
   race <k> : k barrier-released (add-type || delete-type) pairs on a separate node -> `race <lostPods> <lostReports>`
 -/
 namespace KoordVerif.C08
@@ -227,6 +231,11 @@ def stepLine (st : St) (line : String) : St × List String :=
           | "filter", q =>
             match parseFilter q with
             | some fq => (st, [s!"filter {filter cfg st.cache fq}"])
+            | none => (st, ["bad-op"])
+          -- the same query answered by the scheduler framework for this node (PreFilter, then the Filter plugins it still runs)
+          | "fwfilter", q =>
+            match parseFilter q with
+            | some fq => (st, [s!"fw {fwFilter cfg st.cache fq}"])
             | none => (st, ["bad-op"])
           | _, _ => (st, ["bad-op"])
 
